@@ -14,7 +14,7 @@ import ArroyProofs.Properties.C01Examples
 
 The reader theorems (C02, C03, C04) assume `ForestOK` / `ForestWith` / `DescSorted` / `RoutedT`; the
 builder theorems (C01, C04-build) establish `Forest` / `IndexInv` / `Routed` after every history
-`((add | append | del | clear)* build)+`. Here the two are composed (through `ArroyProofs/ForestBridge.lean`),
+`((add | append | del | clear | prepare)* build)+` (`prepare` = `Writer::prepare_changing_distance`). Here the two are composed (through `ArroyProofs/ForestBridge.lean`),
 so that no intermediate predicate is left as a hypothesis: the statements are about
 `C01.run ops` followed by a successful `Build.build`, `Reader.open` and the query functions only.
 
@@ -271,10 +271,12 @@ theorem C04_selfLookup_reachable_bq (ops : List Op) (hops : ∀ op ∈ ops, op.w
 
 /-! ### the stored vectors of an f32 index have `c.dims` words -/
 
-/-- every item of index `c` is added with the dimension of `c` and an f32 metric -/
+/-- every item of index `c` is added with the dimension of `c` and an f32 metric, and every metric change of
+    the index is made at the dimension of `c`, towards an f32 metric -/
 def itemsCfg (c : Cfg) : Op → Prop
   | .add c' _ _ => c'.index = c.index → c'.dims = c.dims ∧ c'.metric.isBq = false
   | .append c' _ _ => c'.index = c.index → c'.dims = c.dims ∧ c'.metric.isBq = false
+  | .prepare c' m' => c'.index = c.index → c'.dims = c.dims ∧ m'.isBq = false
   | _ => True
 
 /-- every stored leaf of index `c` has `c.dims` vector words -/
@@ -294,6 +296,41 @@ theorem vecLen_add {c c' : Cfg} {s s' : Store} {id : Nat} {vec : List Nat}
     rw [← hg.2, (Writer.addItem_ok h).1, hdims]
   · rw [if_neg he] at hg
     exact hP id0 hd v hg
+
+/-- a metric change towards an f32 metric at the dimension of the index re-encodes every vector at that
+    dimension (from a quantised metric: the first `dims` of the `64 * dims` unpacked signs) -/
+theorem vecLen_prepare {c c' : Cfg} {m' : Metric} {s s' : Store}
+    (hc : c'.index = c.index → c'.dims = c.dims ∧ m'.isBq = false) (hi' : c'.index < 65536)
+    (hinv : IndexInv c' s) (h : Writer.prepareChangingDistance c' m' s = .ok s') (hP : VecLen c s) :
+    VecLen c s' := by
+  by_cases hne : m' = c'.metric
+  · subst hne
+    rw [C18.C18_same] at h
+    cases h; exact hP
+  · obtain ⟨s'', h', _, hsome, hleaf, ho, _⟩ :=
+      C18.C18_change c' m' s hne hinv.1.2.1 hinv.1.1 hi' hinv.1.2.2.1
+    rw [h] at h'
+    cases h'
+    intro id0 hd v hg
+    by_cases he : c'.index = c.index
+    · obtain ⟨hdims, hbq⟩ := hc he
+      have hk : c.itemKey id0 = c'.itemKey id0 := by simp [Cfg.itemKey, he]
+      rw [hk] at hg
+      have hx : (Store.get s (c'.itemKey id0)).isSome = true := by rw [← hsome, hg]; rfl
+      obtain ⟨hd0, v0, hg0⟩ := hinv.1.2.2.1.leaf_of_isSome hx
+      have hl0 : v0.length = c.dims := hP id0 hd0 v0 (by rw [hk]; exact hg0)
+      rw [hleaf id0 hd0 v0 hg0] at hg
+      simp only [Cfg.mkLeaf, Metric.fromSlice, hbq, Bool.false_eq_true, if_false, Option.some.injEq,
+        Val.leaf.injEq] at hg
+      rw [← hg.2, List.length_take, hdims]
+      unfold Metric.toVec
+      split
+      · rw [Writer.bqUnpack_length, hl0]
+        have : quantizedWordBits = 64 := rfl
+        rw [this]; omega
+      · rw [hl0]; omega
+    · rw [ho _ (Or.inl (fun e => he e.symm))] at hg
+      exact hP id0 hd v hg
 
 theorem vecLen_step (s : Store) (op : Op) (hop : op.wf) (c : Cfg) (hi : c.index < 65536)
     (hq : itemsCfg c op) (hinv : ∀ c : Cfg, c.index < 65536 → IndexInv c s) (hP : VecLen c s) :
@@ -346,6 +383,11 @@ theorem vecLen_step (s : Store) (op : Op) (hop : op.wf) (c : Cfg) (hi : c.index 
           exact this.1.2.1
         rw [Store.get_none_of_not_wf hw' hk] at hg
         cases hg
+  | prepare c' m' =>
+    simp only [step]
+    cases h : Writer.prepareChangingDistance c' m' s with
+    | ok s' => exact vecLen_prepare hq hop (hinv c' hop) h hP
+    | error e => exact hP
 
 /-- **the length invariant over histories**: if every item of index `c` is added with dimension
     `c.dims` and an f32 metric, every stored leaf of the index has exactly `c.dims` vector words, in
